@@ -1,0 +1,22 @@
+//go:build verif
+
+package server
+
+// Verification hook for property C09 (build tag verif only): the header that handleRequest
+// gives the reply to req, without a socket.
+
+import (
+	"time"
+
+	"example.com/scion-time/core/timebase"
+
+	"example.com/scion-time/net/ntp"
+)
+
+func VerifC09ReplyHeader(clientID string, req *ntp.Packet) ntp.Packet {
+	var resp ntp.Packet
+	rxt := timebase.Now()
+	var txt time.Time
+	handleRequest(clientID, req, &rxt, &txt, &resp)
+	return resp
+}
